@@ -130,6 +130,11 @@ func (e *Engine) callStatic(st *State, fn *ssa.Function, args []Val, bindings []
 			return
 		}
 	}
+	if fn.Name() == "init" && fn.Synthetic != "" {
+		// initialisers of imported packages: verified separately where they carry global invariants
+		k(st, Val{})
+		return
+	}
 	if isLogCall(fn) {
 		e.logCall(st, fn, args, pos, k)
 		return
@@ -170,7 +175,14 @@ func (e *Engine) logCall(st *State, fn *ssa.Function, args []Val, pos token.Pos,
 		e.doPanic(st, pos, "log."+fn.Name(), "panic")
 		return
 	}
-	k(st, e.havocResults(st, fn.Signature, "log"))
+	res := e.havocResults(st, fn.Signature, "log")
+	// functions of the log package that return a Logger return a non-nil one
+	if fn.Signature.Results().Len() == 1 {
+		if _, isI := fn.Signature.Results().At(0).Type().Underlying().(*types.Interface); isI {
+			e.assume(st, e.tb.Neq(res.ifTag(), e.tb.Int(0)))
+		}
+	}
+	k(st, res)
 }
 
 // havocResults builds fresh result values for a signature.
@@ -220,7 +232,13 @@ func (e *Engine) invoke(st *State, c *ssa.CallCommon, recv Val, args []Val, pos 
 			e.doPanic(st, pos, "Logger."+c.Method.Name(), "panic")
 			return
 		}
-		k(st, e.havocResults(st, c.Signature(), "log"))
+		res := e.havocResults(st, c.Signature(), "log")
+		if c.Signature().Results().Len() == 1 {
+			if _, isI := c.Signature().Results().At(0).Type().Underlying().(*types.Interface); isI {
+				e.assume(st, e.tb.Neq(res.ifTag(), e.tb.Int(0)))
+			}
+		}
+		k(st, res)
 		return
 	}
 	if ic, ok := e.Specs.Ifaces[iname]; ok {
@@ -404,7 +422,7 @@ func (e *Engine) appendOp(st *State, c *ssa.CallCommon, args []Val, pos token.Po
 					ev = e.loadPx(st, &PtrX{Kind: PElem, Ref: t.slArr(), Idx: tb.Add(t.slOff(), tb.Int(i)), Root: elT, Elem: -1}, elT)
 				}
 				if ev.Ann != nil {
-					e.escape(st, elT, ev)
+					ev = e.escape(st, elT, ev)
 				}
 				row = tb.Store(row, tb.Add(tb.Add(off, s.slLen()), tb.Int(i)), ev.T[li])
 			}
